@@ -187,3 +187,36 @@ pub fn random_grammars(seed: u64, n: usize, f: &mut dyn FnMut(G)) {
         f(call(random_tree(&mut rng, size, &leaves, fb)));
     }
 }
+
+/// grammars whose output could depend on the textual order of definitions: alternatives /
+/// sequences / fallbacks of bare references whose definitions are commands, words or literals
+pub fn order_sensitive(f: &mut dyn FnMut(G)) {
+    let bodies: Vec<E> = vec![
+        E::cmd("echo from"),
+        E::cmd("echo to"),
+        E::Word(vec![E::lit("x="), E::Alt(vec![E::lit("a"), E::lit("b")])]),
+        E::Word(vec![E::lit("y="), E::Alt(vec![E::lit("c"), E::lit("d")])]),
+        E::Alt(vec![E::lit("p"), E::lit("q")]),
+    ];
+    let x = || E::r("SRC");
+    let y = || E::r("DST");
+    let mains: Vec<E> = vec![
+        E::Seq(vec![E::Alt(vec![x(), y()]), E::lit("done")]),
+        E::Alt(vec![y(), x()]),
+        E::Fb(vec![x(), y()]),
+        E::Seq(vec![x(), y()]),
+        E::Alt(vec![E::Seq(vec![E::lit("s"), x()]), E::Seq(vec![E::lit("d"), y()]), x()]),
+        E::Seq(vec![E::Opt(Box::new(y())), E::Many(Box::new(E::Alt(vec![x(), y()])))]),
+    ];
+    for m in &mains {
+        for b1 in &bodies {
+            for b2 in &bodies {
+                if b1 == b2 {
+                    continue;
+                }
+                f(G { stmts: vec![Stmt::Call { name: CMD.into(), expr: m.clone() }, def("SRC", b1.clone()), def("DST", b2.clone())] });
+                f(G { stmts: vec![def("DST", b2.clone()), Stmt::Call { name: CMD.into(), expr: m.clone() }, def("SRC", b1.clone())] });
+            }
+        }
+    }
+}
